@@ -12,6 +12,7 @@ from typing import Dict, List, Optional, Iterable, Tuple
 
 
 ALPHA = True        # alpha-normalise locals back to reference names (sa/alpha.py)
+NORMAL = True       # fold NEW helpers / constants / locals back into the reference shape (sa/normal.py)
 
 
 class AnalysisError(Exception):
@@ -103,7 +104,11 @@ class Repo:
         self.parents: Dict[int, ast.AST] = {}
         self.owner: Dict[int, FuncInfo] = {}
         self.renamed: Dict[str, Dict[str, str]] = {}
+        self.normal_info: Dict[str, object] = {}
         self._load()
+        if NORMAL:
+            from .normal import normalise_repo
+            self.normal_info = normalise_repo(self)
         if ALPHA:
             self._alpha()
 
@@ -135,6 +140,13 @@ class Repo:
                 m = ModuleInfo(rel, modname, src, tree)
                 self.modules[rel] = m
                 self._index_module(m)
+
+    def reindex(self):
+        """rebuild the indexes after the module ASTs were rewritten in place (sa/normal.py)"""
+        self.functions, self.classes, self.parents, self.owner = {}, {}, {}, {}
+        for m in self.modules.values():
+            m.constants, m.imports = {}, {}
+            self._index_module(m)
 
     def _index_module(self, m: ModuleInfo):
         for node in ast.walk(m.tree):
